@@ -1,5 +1,5 @@
 // ---- shared specifications for the terminal core (DESIGN.md 4) --------------------------------------------
-pub open spec fn CAP() -> int { 0x100_0000 }   // 2^24: "machine arithmetic" cap on every size and coordinate
+pub open spec fn CAP() -> int { 0x2000_0000 }   // 2^29: "machine arithmetic" cap on every size and coordinate
 
 pub open spec fn invisible_cell(font_page: usize) -> AttributedChar {
     AttributedChar { ch: ' ', attribute: TextAttribute { font_page: font_page, foreground_color: 7, background_color: 0, attr: 0x8000 } }
@@ -23,8 +23,8 @@ pub open spec fn layer_ok(l: Layer, k: int) -> bool {
     &&& forall|y: int| 0 <= y < l.lines.len() ==> (#[trigger] l.lines[y]).chars.len() <= k
 }
 pub open spec fn margins_safe(ts: TerminalState) -> bool {
-    &&& (ts.margins_top_bottom matches Some(m) ==> -1 <= m.0 <= m.1 < 0x10_0000)
-    &&& (ts.margins_left_right matches Some(m) ==> -1 <= m.0 <= m.1 < 0x10_0000)
+    &&& (ts.margins_top_bottom matches Some(m) ==> 0 <= m.0 <= m.1 < 132)
+    &&& (ts.margins_left_right matches Some(m) ==> 0 <= m.0 <= m.1 < 132)
 }
 pub open spec fn tabs_safe(ts: TerminalState) -> bool {
     forall|i: int| 0 <= i < ts.tab_stops.len() ==> 0 <= #[trigger] ts.tab_stops[i] < 0x10_0000
@@ -175,4 +175,23 @@ pub open spec fn buf_same_shape(a: Buffer, b: Buffer) -> bool {
     &&& a.layers@.len() == b.layers@.len()
     &&& forall|i: int| 0 <= i < a.layers@.len() ==> layer_frame(#[trigger] a.layers@[i], b.layers@[i])
     &&& forall|i: int, k: int| 0 <= i < a.layers@.len() && layer_ok(a.layers@[i], k) && k >= 0x10_0001 && a.size.width <= k ==> #[trigger] layer_ok(b.layers@[i], k)
+}
+// only `lines` (and sixels) of layer li change
+pub open spec fn buf_lines_only(a: Buffer, b: Buffer, li: int) -> bool {
+    &&& buf_frame_common(a, b)
+    &&& a.size == b.size && a.terminal_state == b.terminal_state && a.sauce_data == b.sauce_data
+    &&& a.layers@.len() == b.layers@.len()
+    &&& forall|i: int| 0 <= i < a.layers@.len() && i != li ==> #[trigger] b.layers@[i] == a.layers@[i]
+    &&& layer_frame(a.layers@[li], b.layers@[li])
+}
+// ---- the inductive state invariant of a terminal session (C01) --------------------------------------------
+// k is a growth budget: every size and the cursor are at most k. One character grows k by at most 2.
+pub open spec fn term_inv(b: Buffer, c: Caret, k: int) -> bool {
+    buf_ok(b, k) && caret_ok(c, k) && k >= 0x10_0001
+}
+pub open spec fn term_step(b0: Buffer, c0: Caret, b1: Buffer, c1: Caret, g: int) -> bool {
+    &&& b1.is_terminal_buffer == b0.is_terminal_buffer
+    &&& b1.layers@.len() == b0.layers@.len()
+    &&& b1.terminal_state.size == b0.terminal_state.size
+    &&& forall|k: int| #[trigger] term_inv(b0, c0, k) && k + g <= CAP() ==> term_inv(b1, c1, k + g)
 }
